@@ -275,8 +275,44 @@ func storeSites() []Site {
 	}
 }
 
+const rdr = "pkg/scrape/reader.go"
+const scr = "pkg/scrape/scraper.go"
+
+func proxySites() []Site {
+	sh := "Proxy.ServeHTTP"
+	return []Site{
+		{Name: "noJob", File: scp, Func: sh, Sel: "if:0:12", Params: "(jobKnown : Bool)", Ret: "Bool",
+			Leaves: map[string]string{"jobInfo == nil": "!jobKnown"}},
+		{Name: "noJobStatus", File: scp, Func: sh, Sel: "call:w.WriteHeader:0:0", Ret: "text"},
+		{Name: "badHashStatus", File: scp, Func: sh, Sel: "call:w.WriteHeader:1:0", Ret: "text"},
+		{Name: "deferFailed", File: scp, Func: sh, Sel: "if:2:12", Params: "(failed : Bool)", Ret: "Bool",
+			Leaves: map[string]string{"scrapErr != nil": "failed"}},
+		{Name: "failStatus", File: scp, Func: sh, Sel: "call:w.WriteHeader:2:0", Ret: "text"},
+		{Name: "deferStopped", File: scp, Func: sh, Sel: "if:4:12", Params: "(stopped : Bool)", Ret: "Bool",
+			Leaves: map[string]string{"stopReason != \"\"": "stopped"}},
+		{Name: "stopStatus", File: scp, Func: sh, Sel: "call:w.WriteHeader:3:0", Ret: "text"},
+		{Name: "touches", File: scp, Func: sh, Sel: "if:5:12", Params: "(assigned : Bool)", Ret: "Bool",
+			Leaves: map[string]string{"tar != nil": "assigned"}},
+		{Name: "aborts", File: scp, Func: sh, Sel: "if:6:12", Params: "(failed : Bool) (forwarded : Nat)", Ret: "Bool",
+			Leaves: map[string]string{"scrapErr != nil": "failed"}},
+		{Name: "abortWith", File: scp, Func: sh, Sel: "call:panic:0:0", Ret: "text"},
+		{Name: "teeOn", File: scp, Func: sh, Sel: "if:7:12", Params: "(stopped : Bool)", Ret: "Bool",
+			Leaves: map[string]string{"stopReason == \"\"": "!stopped"}},
+		{Name: "recordsResult", File: scp, Func: sh, Sel: "if:11:12", Params: "(assigned : Bool)", Ret: "Bool",
+			Leaves: map[string]string{"tar != nil": "assigned"}},
+		{Name: "readerLoop", File: rdr, Func: "wrappedReader.Read", Sel: "for:0", Params: "(wTotal n : Nat)", Ret: "Bool"},
+		{Name: "readerSlice", File: rdr, Func: "wrappedReader.Read", Sel: "call:w.Write:0:0", Ret: "text"},
+		{Name: "readerAdvance", File: rdr, Func: "wrappedReader.Read", Sel: "assign:wTotal:1", Params: "(wTotal wn : Nat)", Ret: "Nat"},
+		{Name: "readerWriteFails", File: rdr, Func: "wrappedReader.Read", Sel: "if:1:2", Params: "(werrNil : Bool)", Ret: "Bool",
+			Leaves: map[string]string{"werr != nil": "!werrNil"}},
+		{Name: "badStatus", File: scr, Func: "Scraper.RequestTo", Sel: "if:3:6", Params: "(code : Nat)", Ret: "Bool",
+			Leaves: map[string]string{"s.HTTPResponse.StatusCode": "code", "http.StatusOK": "200"}},
+	}
+}
+
 func modules() []Module {
 	return []Module{
+		{Path: "Kvass/Gen/Proxy.lean", NS: "Kvass.Gen.Proxy", Imports: []string{"Kvass.Types"}, Global: map[string]string{}, Sites: proxySites()},
 		{Path: "Kvass/Gen/Store.lean", NS: "Kvass.Gen.Store", Imports: []string{"Kvass.Types"}, Global: map[string]string{}, Sites: storeSites()},
 		{Path: "Kvass/Gen/Sidecar.lean", NS: "Kvass.Gen.Sidecar", Imports: []string{"Kvass.Types"}, Global: map[string]string{}, Sites: sidecarSites()},
 		{Path: "Kvass/Gen/K8s.lean", NS: "Kvass.Gen.K8s", Imports: []string{"Kvass.Types"}, Global: map[string]string{}, Sites: k8sSites()},
